@@ -52,13 +52,19 @@ pub fn round_trip<const M: usize>(data: &[u8], nf: &[u8; M], nf_len: usize, e: E
             return true;
         }
     };
+    // With a known normal form: the encoding must equal it (all bytes), and the second round then
+    // starts from the normal form itself, which is the same byte string but whose type/length words
+    // are syntactic constants for the symbolic execution (the encoder output is a merge over all
+    // field variants).
     if e.check_nf {
         assert!(n1 == nf_len, "(b) encoded length is the length of the normal form");
-        if i < nf_len {
-            assert!(b1[i] == nf[i], "(b) encoding is the normal form of the input");
+        assert!(b1[..n1] == nf[..n1], "(b) encoding is the normal form of the input");
+        if i < n1 {
+            assert!(b1[i] == nf[i], "(b) encoding is the normal form of the input (arbitrary index)");
         }
     }
-    let p2 = match decode(&b1[..n1], &NoCipher) {
+    let second: &[u8] = if e.check_nf { &nf[..nf_len] } else { &b1[..n1] };
+    let p2 = match decode(second, &NoCipher) {
         Outcome::Accepted(p2, _) => p2,
         other => {
             std::mem::forget(other);
@@ -73,11 +79,15 @@ pub fn round_trip<const M: usize>(data: &[u8], nf: &[u8; M], nf_len: usize, e: E
     match encode(&p2, &NoCipher, &mut b2) {
         Ok(n2) => {
             assert!(n2 == n1, "(d) second encoding has the same length");
+            assert!(b2[..n2] == second[..], "(d) second encoding yields the same bytes");
             if j < n1 {
-                assert!(b2[j] == b1[j], "(d) second encoding yields the same bytes");
+                assert!(b2[j] == second[j], "(d) second encoding yields the same bytes (arbitrary index)");
             }
         }
-        Err(_) => assert!(false, "(d) the normalised packet can be encoded"),
+        Err(e2) => {
+            std::mem::forget(e2);
+            assert!(false, "(d) the normalised packet can be encoded");
+        }
     }
     // not dropped: dropping the field vectors dominates symbolic execution and is not under test
     std::mem::forget(p);
